@@ -257,16 +257,16 @@ def C15(tier):
             continue
         for u in r.get("unanalysable", []):
             c.violation("unanalysable:%s|%s" % (u["what"], j["root"]), dict(u, job=j))
-        from .common import nondefault_header_opts, nondefault_ms_opts
+        preset_on = tuple(sorted(k[4:] for k, val in (j.get("preset") or {}).items() if val))
         for v in r.get("violations", []):
-            if v["rule"].startswith("spec:") or v["rule"].startswith("hygiene:"):
-                p_ = v.get("path") or {}
-                k = (root_kind(j["root"]), v["rule"], v["detail"], ",".join((p_.get("consumed_classes") or [])[-4:]))
-                nd = nondefault_header_opts(v, j) or nondefault_ms_opts(v, j)
-                (nondef if nd else deflt).setdefault(k, dict(v, job=j))
+            if v["rule"].startswith("spec:") or v["rule"].startswith("hygiene:") or v["rule"].startswith("zero-copy:"):
+                k = (root_kind(j["root"]), v["rule"], v["detail"])
+                for on in v.get("options_on") or [()]:
+                    allon = tuple(sorted(set(on) | set(preset_on)))
+                    (nondef if allon else deflt).setdefault(k, dict(v, job=j, options=allon))
     for k, v in nondef.items():
         if k not in deflt:
-            c.violation("config-dependent|%s|%s|%s" % (k[1], k[2], k[3]), dict(v, note="deviation from the reference only under non-default options", rule="config-dependent:" + k[1]))
+            c.violation("config-dependent|%s|%s" % (k[1], k[2]), dict(v, note="deviation from the reference only under non-default options %s" % (v.get("options"),), rule="config-dependent:" + k[1]))
     paths = sum(r["results"] for r in all_results(results))
     c.obligations += paths
     c.discharged += paths
@@ -288,15 +288,12 @@ def C16(tier):
         for u in r.get("unanalysable", []):
             c.violation("unanalysable:%s|%s" % (u["what"], j["root"]), dict(u, job=j))
         s = by_root.setdefault(j["root"], {})
+        preset_on = tuple(sorted(k[4:] for k, val in (j.get("preset") or {}).items() if val))
         for v in r.get("violations", []):
-            if v["rule"].startswith("spec:") or v["rule"].startswith("hygiene:"):
-                from .common import env_of
-                env = dict(env_of(v))
-                env.update(j.get("preset") or {})
-                cfg = tuple(sorted((k, val) for k, val in env.items() if k.startswith("cfg:") and val))
-                p = v.get("path") or {}
-                cc = ",".join((p.get("consumed_classes") or [])[-6:])
-                s[(v["rule"], v["detail"], cfg, cc)] = v
+            if v["rule"].startswith("spec:") or v["rule"].startswith("hygiene:") or v["rule"].startswith("zero-copy:") or v["rule"].startswith("headers:"):
+                for on in v.get("options_on") or [()]:
+                    allon = tuple(sorted(set(on) | set(preset_on)))
+                    s[(v["rule"], v["detail"], allon)] = v
     groups = [
         ("Request::parse", "Request::parse_with_uninit_headers", None),
         ("ParserConfig::parse_request", "ParserConfig::parse_request_with_uninit_headers", None),
@@ -308,6 +305,8 @@ def C16(tier):
         sa, sb = by_root.get(a, {}), by_root.get(b, {})
         if mode == "default":
             sb = {k: v for k, v in sb.items() if not k[2]}
+        sa = {(k[0], k[1], k[2] if mode is None else ()): v for k, v in sa.items()}
+        sb = {(k[0], k[1], k[2] if mode is None else ()): v for k, v in sb.items()}
         for k in set(sa) ^ set(sb):
             v = sa.get(k) or sb.get(k)
             who = a if k in sa else b
@@ -317,9 +316,9 @@ def C16(tier):
         c.obligations += 1
         c.discharged += 1
     # parse_headers vs the header phase of request/response: violations in the headers phase must coincide
-    ph = {(k[0], k[1], k[3]) for k in by_root.get("parse_headers", {})}
+    ph = {(k[0], k[1]) for k in by_root.get("parse_headers", {}) if not k[0].startswith("headers:")}
     for r in ("Request::parse", "Response::parse"):
-        pr = {(k[0], k[1], k[3]) for k in by_root.get(r, {}) if k[0].endswith(":headers")}
+        pr = {(k[0], k[1]) for k in by_root.get(r, {}) if k[0].endswith(":headers") or k[0].startswith("hygiene:header") or (k[0].startswith("zero-copy:") and "header" in k[1])}
         for k in ph ^ pr:
             who = "parse_headers" if k in ph else r
             c.violation("entry-points-disagree|%s|headers-phase|%s|%s" % (who, k[0], k[1]),
@@ -339,3 +338,79 @@ ALL = {}
 for _n, _f in list(globals().items()):
     if len(_n) == 3 and _n[0] == "C" and _n[1:].isdigit() and callable(_f):
         ALL[_n] = _f
+
+
+def C04(tier):
+    import sys as _sys
+    _sys.path.insert(0, os.path.dirname(os.path.dirname(os.path.abspath(__file__))))
+    from witness import corpus
+
+    def extra(c, jobs, results):
+        try:
+            items, res = corpus.run_corpus()
+        except Exception as e:  # noqa
+            c.violation("witness-build-failed", {"rule": "witness-build-failed", "detail": str(e)[-800:]})
+            c.obligations += 1
+            return
+        by = {r["name"]: r for r in res}
+        nrej = nacc = 0
+        for r in res:
+            if r["expect"] == "accept":
+                nacc += 1
+                ok = r["compiled"]
+                c.oblige(ok, "witness-must-compile|%s" % r["name"],
+                         {"rule": "witness-must-compile", "detail": "usage pattern / twin %s no longer compiles: %s %s" % (r["name"], r["codes"], r["messages"])})
+            else:
+                nrej += 1
+                ok = (not r["compiled"]) and r["codes"] and all(x in corpus.BORROW_CODES for x in r["codes"])
+                twin_ok = by.get(r["twin"], {}).get("compiled", False)
+                c.oblige(bool(ok), "witness-must-be-rejected|%s" % r["name"],
+                         {"rule": "witness-must-be-rejected", "detail": "escaping program %s is %s (codes %s): a returned reference is no longer tied to its buffer/array" % (
+                             r["name"], "accepted by the borrow checker" if r["compiled"] else "rejected for another reason", r["codes"])})
+                c.oblige(twin_ok, "witness-twin-broken|%s" % r["name"], {"rule": "witness-twin-broken", "detail": "the compiling twin of %s does not compile" % r["name"]})
+        floor_ok = nrej >= 80 and nacc >= 80
+        c.oblige(floor_ok, "witness-floor", {"rule": "witness-floor", "detail": "corpus shrank: %d rejecting / %d accepting programs" % (nrej, nacc)})
+        c.coverage["programs"] = len(res)
+        c.coverage["rejecting_programs"] = nrej
+        c.coverage["accepting_programs"] = nacc
+        c.coverage["witness_samples"] = [{"name": r["name"], "expect": r["expect"], "codes": r["codes"]} for r in res[:6]]
+
+    return machine_check("C04", tier, roots=[r for r in R.ENTRY_ROOTS if root_kind(r) != "chunk"], kinds=("entry",), level="other", extra=extra, explanation=(
+        "slice half (proof): every stored non-empty slice is a region of this call's input buffer, starts at or after the end of the previously "
+        "stored one and ends within the consumed bytes, on every abstract path (Complete, Partial or Err). Lifetime half (counted corpus): "
+        "for each entry point x returned reference x escape kind a client program that must be rejected by the borrow checker with a borrow "
+        "error code, its compiling twin, and usage patterns that must keep compiling; programs are only type-checked (rustc --emit=metadata)"))
+
+
+ALL["C04"] = C04
+
+
+def c02_filter(v, job, res):
+    """A deviation from the (prefix-stable) reference is a streaming inconsistency when it only
+    ever occurs after the implementation has observed the end of the buffer and the implementation
+    nevertheless commits to Complete/Err (or stores a field): the same bytes followed by more input
+    are handled like the reference, so the two calls disagree."""
+    if not v["rule"].startswith("spec:"):
+        return False
+    if v.get("eof_paths") != [True]:
+        return False
+    cls = v["rule"].split(":")[1]
+    d = v["detail"]
+    if cls == "field":
+        return True
+    if cls in ("offset", "errkind"):
+        return True
+    if cls == "verdict":
+        return d.startswith("implementation returned Err") or d.startswith("implementation returned Complete") or "Complete(n)" in d
+    return False
+
+
+def C02(tier):
+    return machine_check("C02", tier, kinds=("entry",), pid_filter=c02_filter, explanation=(
+        "the reference grammars are sequential machines with absorbing verdicts, hence prefix-stable; every entry point equals its reference for "
+        "every buffer and every end-of-buffer position (C03/C06-C10/C14 jobs, which fork on the end of input at every read and look-ahead). "
+        "A deviation is attributed to C02 when it occurs only on paths on which the end of the buffer had been observed before the "
+        "implementation committed to Complete/Err or stored a field"))
+
+
+ALL["C02"] = C02
